@@ -124,8 +124,7 @@ class C10:
             oracle_v = COUSIN.get(target, target)
             if oracle_v != target:
                 tree2 = rm.template_code_tree(oracle_v, consts, varnames=varnames, extra=extra)
-                payload2, _ = rm.encode(tree2, oracle_v, case["choices"],
-                                        allow_refs=vt >= (3, 4))
+                payload2, _ = rm.encode(tree2, target, case["choices"], layout_version=oracle_v)
                 # the stream must differ only in the fixed-width header ints
             else:
                 payload2 = payload
@@ -141,7 +140,7 @@ class C10:
             kinds = set()
             for v in case["values"]:
                 gv.kinds_in(v, kinds)
-            if not (kinds & {"S", "Z", "D"}) and expected != intended and not (py2 and "E" in kinds):
+            if not (kinds & {"S", "Z", "D"}) and _nolong(expected) != intended and not (py2 and "E" in kinds):
                 raise HarnessError("refmarshal self-check: CPython %s loaded %s, intended %s" % (
                     oracle_v, cn.summary(expected, 200), cn.summary(intended, 200)))
             ctx.extra["oracle_selfchecks"] = ctx.extra.get("oracle_selfchecks", 0) + 1
@@ -195,6 +194,18 @@ class C10:
         res.sample = {"target": target, "enc": enc, "mver": case["mver"], "payload_hex": rw.hx(payload)[:160],
                       "payload_len": len(payload), "features": sorted(features)[:12]}
         return res
+
+
+def _nolong(t):
+    """canonical tree without the Python 2 long marker (the encoder chooses i / I / l itself)"""
+    k = t[0]
+    if k == "i":
+        return ["i", t[1]]
+    if k in ("T", "L", "S", "Z"):
+        return [k, [_nolong(x) for x in t[1]]]
+    if k == "D":
+        return [k, [[_nolong(a), _nolong(b)] for a, b in t[1]]]
+    return t
 
 
 def _nodes(t):
